@@ -252,3 +252,85 @@ mod test {
         assert_json_snapshot!("roblox_globals_rename_variables", rule as Box<dyn Rule>);
     }
 }
+
+/// Verification hook (add-only, compiled with the `verif-hooks` feature only): drives a real
+/// `RenameProcessor` through its `Scope` / `NodeProcessor` entry points and reports what each
+/// call returned. Re-exported as `darklua_core::rules::rename_verif_hooks`.
+#[cfg(feature = "verif-hooks")]
+pub mod rename_verif_hooks {
+    use super::rename_processor::RenameProcessor;
+    use crate::nodes::{Block, FunctionAssignment, Identifier};
+    use crate::process::{NodeProcessor, Scope};
+
+    #[derive(Debug, Clone)]
+    pub enum RenameOp {
+        Push,
+        Pop,
+        /// `Scope::insert` (parameters, for variables)
+        Insert(String),
+        /// `Scope::insert_local`
+        InsertLocal(String),
+        InsertSelf,
+        /// `Scope::insert_local_function` on `local function <name>() end`
+        LocalFunction(String),
+        /// `NodeProcessor::process_variable_expression` on an identifier
+        Lookup(String),
+    }
+
+    /// For each operation: the name the processor wrote back (insertions), the mapped name of a
+    /// looked-up identifier (`None` when the identifier is not mapped), `None` for push/pop/self.
+    pub fn rename_processor_trace(
+        avoid: Vec<String>,
+        include_functions: bool,
+        ops: &[RenameOp],
+    ) -> Vec<Option<String>> {
+        let mut processor = RenameProcessor::new(avoid, include_functions);
+        ops.iter()
+            .map(|op| match op {
+                RenameOp::Push => {
+                    processor.push();
+                    None
+                }
+                RenameOp::Pop => {
+                    processor.pop();
+                    None
+                }
+                RenameOp::Insert(name) => {
+                    let mut name = name.clone();
+                    processor.insert(&mut name);
+                    Some(name)
+                }
+                RenameOp::InsertLocal(name) => {
+                    let mut name = name.clone();
+                    processor.insert_local(&mut name, None);
+                    Some(name)
+                }
+                RenameOp::InsertSelf => {
+                    processor.insert_self();
+                    None
+                }
+                RenameOp::LocalFunction(name) => {
+                    let mut function = FunctionAssignment::from_name(name.as_str(), Block::default());
+                    processor.insert_local_function(&mut function);
+                    Some(function.get_name().to_owned())
+                }
+                RenameOp::Lookup(name) => {
+                    let mapped = processor.get_obfuscated_name(name).cloned();
+                    let mut identifier = Identifier::new(name.as_str());
+                    processor.process_variable_expression(&mut identifier);
+                    mapped.map(|mapped| {
+                        debug_assert_eq!(&mapped, identifier.get_name());
+                        identifier.get_name().to_owned()
+                    })
+                }
+            })
+            .collect()
+    }
+
+    /// The first `count` strings of the raw (unfiltered) identifier permutator.
+    pub fn raw_permutator_names(count: usize) -> Vec<String> {
+        crate::process::utils::identifier_permutator()
+            .take(count)
+            .collect()
+    }
+}
